@@ -188,6 +188,7 @@ def handle(req):
         DEFECT = 'py|flattenedsize-nonascii-fieldname'
         try:
             m = build_native(req['script'], int(req.get('case', 0)), stats); bp = m.GetFlattenedBuffer(); fs = m.FlattenedSize(); stats['py_native_built'] = 1
+            if any(len(f[2]) == 0 for f in model[1]): stats['py_built_zero_item_field'] = 1
             if bp != cpp:
                 pyhex = bp.hex() if len(bp) <= 300000 else '-'
                 fail(DEFECT if (nonascii_nested and size_defect(m)) else 'py|bytes-python-vs-cpp', describe_diff('c++', cpp, 'python', bp))
